@@ -22,6 +22,7 @@
 (* abstraction.  Checked by:                                               *)
 (*   apalache-mc check --cinit=ConstInit --inv=IndInv --init=Init --length=0    *)
 (*   apalache-mc check --cinit=ConstInit --inv=IndInv --init=IndInit --length=1 *)
+(*   apalache-mc check --cinit=ConstInit --inv=IndInv --init=InitRaw --length=0 *)
 (***************************************************************************)
 EXTENDS Integers
 
@@ -61,6 +62,14 @@ Inc(x)  == IF x + 1 >= Cap THEN 0 ELSE x + 1          \* the code's own wrap of 
 \* elements 1..Cap, oldest first.
 Init == /\ start = 0 /\ len = 0 /\ pushed = 0 /\ popped = 0 /\ wslot = -1 /\ bad = FALSE
         /\ first = 0 /\ fpushed = Cap /\ fwslot = (IF W <= Cap THEN W - 1 ELSE -1) /\ fbad = FALSE
+
+\* from_raw_parts(start, len, storage) / Fixed::from_raw_parts(first, storage): ANY valid raw parts; the live
+\* elements are numbered 1..len (1..Cap for Fixed), oldest first.  Generalises Init (from) and from_full.
+InitRaw == /\ start \in Int /\ start >= 0 /\ start < Cap /\ len \in Int /\ len >= 0 /\ len <= Cap
+           /\ pushed = len /\ popped = 0 /\ bad = FALSE
+           /\ wslot = (IF W <= len THEN Wrap(start + W - 1) ELSE -1)
+           /\ first \in Int /\ first >= 0 /\ first < Cap /\ fpushed = Cap /\ fbad = FALSE
+           /\ fwslot = (IF W <= Cap THEN Wrap(first + W - 1) ELSE -1)
 
 BLive(po, pu) == po < W /\ W <= pu
 BUnch == UNCHANGED <<start, len, pushed, popped, wslot, bad>>
